@@ -26,6 +26,16 @@ def run_exec_case(case, mon, prop, driver=None, max_steps=200, sample_extra=None
         return w, []
     for k, v in w.events.items():
         mon.count(k, v)
+    if w.step_no + 1 > 4096:
+        mon.count("scale:script_of_more_than_4096_ticks")
+    _ex = {}
+    for mc in w.containers:
+        if mc.status in ("ok", "failed"):
+            _ex[mc.pool] = _ex.get(mc.pool, 0) + 1
+    if max(_ex.values(), default=0) > 1000:
+        mon.count("scale:script_with_more_than_1000_exits_on_one_pool")
+    if w.npools > 8:
+        mon.count("scale:script_with_more_than_8_pools")
     mon.count("steps", w.step_no + 1)
     mon.count("containers", len(w.containers))
     if w.ended:
